@@ -102,7 +102,7 @@ class Evaluator:
         prog = mcprog2.parse(case["spec"])
         feat = mcprog2.feature(prog)
         run = mc_red.Runner(self.vm, self.mc, self.workdir, case["name"], case["spec"])
-        ref = run.run(mc_red.Config("none"), self.t_ref)
+        ref, _ = run.run_confirmed(mc_red.Config("none"), self.t_ref)
         if ref.timed_out:
             ctx.inconclusive("watchdog:reference:%s" % case["pop"])
             return
@@ -183,7 +183,7 @@ class Evaluator:
         if only is None and (ctx.tier == "thorough" or case["pop"] == "directed"):
             cfg = mc_red.Config("odpor")
             res = run.run(cfg, budget, extra=["--cfg=model-check/debug-optimality:on"])
-            if not res.timed_out:
+            if not res.timed_out and not res.env_failure:
                 theirs = "equivalent with an already explored one" in res.log
                 cl = mc_red.explored_classes(res)
                 mine = any(len(v) > 1 for v in cl.values())
